@@ -294,6 +294,30 @@ def _k_nav(c) -> CaseInfo:
     # month adjusters
     som, eom = DateAdjusters.start_of_month(d), DateAdjusters.end_of_month(d)
     need(pyo.fields(som) == (d.year, d.month, 1) and pyo.fields(eom) == (d.year, d.month, cal.get_days_in_month(d.year, d.month)), "start/end_of_month")
+    # field-setting adjusters: the named field changes, the others stay; an impossible combination raises
+    k_day = 1 + (n + dow) % 31
+    dim = cal.get_days_in_month(d.year, d.month)
+    try:
+        r = DateAdjusters.day_of_month(k_day)(d)
+    except RAISES:
+        need(k_day > dim, "day_of_month/raised-for-valid-day", f"{pyo.fmt_date(d)} day {k_day}")
+    else:
+        need(k_day <= dim and pyo.fields(r) == (d.year, d.month, k_day) and r.calendar is cal, "day_of_month/value", f"{pyo.fmt_date(d)} day {k_day} -> {pyo.fmt_date(r)}")
+    k_month = 1 + (n // 7 + dow) % (cal.get_months_in_year(d.year) + 1)
+    valid = k_month <= cal.get_months_in_year(d.year) and d.day <= cal.get_days_in_month(d.year, k_month)
+    try:
+        r = DateAdjusters.month(k_month)(d)
+    except RAISES:
+        need(not valid, "month/raised-for-valid-month", f"{pyo.fmt_date(d)} month {k_month}")
+    else:
+        need(valid and pyo.fields(r) == (d.year, k_month, d.day) and r.calendar is cal, "month/value", f"{pyo.fmt_date(d)} month {k_month} -> {pyo.fmt_date(r)}")
+    for bad in (0, 8, -1):
+        for mk in (DateAdjusters.next, DateAdjusters.previous, DateAdjusters.next_or_same, DateAdjusters.previous_or_same):
+            try:
+                mk(bad)
+            except (ValueError, TypeError):
+                continue
+            raise Mismatch(f"{mk.__name__}/invalid-weekday-accepted", f"{bad}")
     return CaseInfo(edge or fwd == 0, "nav:edge" if edge else "nav")
 
 
